@@ -909,3 +909,42 @@ func stOfState(x State) *state {
 //@   modifies c.pts
 
 var _ = bytes.MinRead
+
+// ---- specification helpers (decided symbolically by govc; executable stand-ins so the file builds under the tag)
+
+func verifForall(lo, hi int, f func(int) bool) bool {
+	for i := lo; i < hi; i++ {
+		if !f(i) {
+			return false
+		}
+	}
+	return true
+}
+
+func verifExists(lo, hi int, f func(int) bool) bool {
+	for i := lo; i < hi; i++ {
+		if f(i) {
+			return true
+		}
+	}
+	return false
+}
+
+// verifFresh(x): x was allocated during the call (checked only symbolically).
+func verifFresh(x interface{}) bool { return true }
+
+// verifSeparate(a, b): a and b are different memory objects (assumed of inputs, decided symbolically).
+func verifSeparate(a, b interface{}) bool { return true }
+
+// verifBufOK(b): bytes.Buffer's own invariant 0 <= off <= len(buf) (decided symbolically; always true at run time).
+func verifBufOK(b interface{}) bool { return true }
+
+// verifVisited(m, k): during a range over map m, key k has already been produced (ghost; decided symbolically).
+func verifVisited(m interface{}, k int) bool { return true }
+
+// verifSnap returns an independent copy of b (used under old(...)).
+func verifSnap(b []byte) []byte {
+	c := make([]byte, len(b))
+	copy(c, b)
+	return c
+}
